@@ -82,6 +82,9 @@ def run(lines, out, args):
             def getter(self, e=int(cf[1:])):
                 raise boom(e)
             Ob = type("Ob", (), {"__conform__": property(getter)})
+        elif cf[0] == "t":
+            # the object is a TUPLE (an instance of a tuple subclass with 0, 1 or 2 items): it is the object, not an argument list
+            Ob = None
         elif cf[0] == "Y":
             # the object is super(C, c): a base class after C carries declarations of its own (so the class has the
             # specification descriptor); the interface is declared (when `prov`) after C (Ya), on C (Yd) or on c (Yi)
@@ -139,7 +142,10 @@ def run(lines, out, args):
                     return val(int(cf[1:]))
                 raise boom(int(cf[1:]), "T" if cf[0] == "T" else cf[0] == "Q")
             Ob = type("Ob", (), {"__conform__": conform})
-        if cf[0] == "Y":
+        if cf[0] == "t":
+            TT = type("TT", (tuple,), {})
+            ob = TT([Val(900 + j) for j in range(int(cf[1]))])
+        elif cf[0] == "Y":
             from zope.interface import classImplements
             YB = type("YB", (), {})
             YC = type("YC", (YB,), {})
